@@ -20,6 +20,7 @@ type State struct {
 	mem     map[string]string // memory key -> current SMT term (array symbol)
 	ghost   map[string]string
 	dflags  map[*ssa.Defer]string
+	objN    int // snapshots only: number of objects the execution had allocated when the snapshot was taken
 }
 
 func (s *State) clone() *State {
